@@ -410,4 +410,54 @@ example : adapterText .pipe true = "Option<oas3_gen_support::StringWithPipeSepar
 example : (headerInsert { name := "X-Trace".toList, loc := .header, required := true }).wire = "x-trace".toList ∧
     (headerInsert { name := "X-Trace".toList, loc := .header, required := true }).const = "X_TRACE".toList := by decide +kernel
 
+/-! ## empty template segments (finding F03-9 / F05-5)
+
+`ParsedPath::parse` splits the template at `/` and FILTERS the empty pieces out, so a trailing slash and `//` are lost on both
+sides: the client requests, and the server registers, another path than the document names. -/
+open Oas3.Path in
+theorem mapM'_length {α β ε} (f : α → Except ε β) : ∀ (l : List α) (out : List β), mapM' f l = .ok out → out.length = l.length
+  | [], out, h => by simp [mapM'] at h; subst h; rfl
+  | a :: r, out, h => by
+    unfold mapM' at h
+    split at h
+    · simp at h
+    · split at h
+      · simp at h
+      · rename_i b hb bs hbs
+        simp at h; subst h
+        simp [mapM'_length f r bs hbs]
+
+open Oas3.Path in
+/-- the parsed path has one segment per NON-EMPTY segment of the template — for every template that parses -/
+theorem parse_keeps_nonempty_segments (decl : List (List Char × List Char)) (r : List Char) (p : Parsed)
+    (hq : (splitOnce '?' ('/' :: r)).1 = '/' :: r) (hne : r ≠ [])
+    (h : parsePath decl ('/' :: r) = .ok p) :
+    p.segments.length = ((templateSegments ('/' :: r)).filter (fun s => !s.isEmpty)).length := by
+  unfold parsePath at h
+  simp only [hq] at h
+  have ht : templateSegments ('/' :: r) = splitOn '/' r := by
+    unfold templateSegments
+    simp only [hq]
+    all_goals (cases r with
+      | nil => exact absurd rfl hne
+      | cons c t => rfl)
+  have hs : (splitOn '/' ('/' :: r)).filter (fun s => !s.isEmpty) = (splitOn '/' r).filter (fun s => !s.isEmpty) := by
+    simp [splitOn]
+  rw [hs] at h
+  split at h
+  · rename_i ss hss
+    simp at h; subst h
+    rw [ht]
+    exact mapM'_length _ _ _ hss
+  · simp at h
+
+open Oas3.Path in
+/-- `/items/` and `/a//b`: what HTTP sees, what is parsed, what the server registers -/
+theorem cex_empty_segment_dropped :
+    templateSegments "/items/".toList = ["items".toList, []] ∧
+    ((parsePath [] "/items/".toList).toOption.map fun p => (p.segments.length, axumPath p)) = some (1, "/items".toList) ∧
+    templateSegments "/a//b".toList = ["a".toList, [], "b".toList] ∧
+    ((parsePath [] "/a//b".toList).toOption.map fun p => (p.segments.length, axumPath p)) = some (2, "/a/b".toList) := by
+  decide +kernel
+
 end Oas3.Props.C03
